@@ -143,6 +143,44 @@ def run_tag(prog, tier, repo):
                         if y[0] == 'k' and y[1].i is not None and x[0] in ('c', 'm') \
                                 and root_local(b, x[1].local)[0] in shift_results:
                             tags.setdefault(y[1].i, []).append((b, st[3], 'decoder'))
+    # (2b) every comparison that decides something from the raw word of the handle goes through the tag shift: a test of the
+    # word itself (its sign, a mask) is a different discriminator than the one the encoder writes
+    word_name = word_field[0].name
+    n_disc = 0
+    for b in heapbodies:
+        if b.self_ty is None or strip_refs(b.self_ty).k != 'adt' or strip_refs(b.self_ty).id != union.id:
+            continue
+
+        def raw_word(op, depth=0):
+            """operand is the union's integer word, possibly cast / copied, but not shifted or masked"""
+            if op[0] not in ('c', 'm') or depth > 6:
+                return False
+            if any(e[0] == 'f' and e[1] == union.id and e[4] == word_name for e in op[1].proj):
+                return True
+            if op[1].proj:
+                return False
+            sd_ = single_def(b, op[1].local)
+            if not sd_ or sd_[1] == 'term':
+                return False
+            rv_ = sd_[2]
+            if rv_[0] == 'use':
+                return raw_word(rv_[1], depth + 1)
+            if rv_[0] == 'cast':
+                return raw_word(rv_[2], depth + 1)
+            return False
+        for bl in b.blocks:
+            if bl.cleanup:
+                continue
+            for st in bl.stmts:
+                if st[0] == 'a' and st[2][0] == 'bin' and st[2][1] in ('Eq', 'Ne', 'Lt', 'Le', 'Gt', 'Ge'):
+                    a, c = st[2][2], st[2][3]
+                    if (raw_word(a) and c[0] == 'k') or (raw_word(c) and a[0] == 'k'):
+                        n_disc += 1
+                        res.violation(f'discriminator:{b.name}', b.loc(st[3]), f'{b.name} decides from the raw {word_bits}-bit word of the '
+                                      f'handle with `{st[2][1]}` against a constant instead of comparing the tag byte (word >> '
+                                      f'{word_bits - 8}) with the tag: an inline string whose last byte has that property (e.g. a '
+                                      f'{cap}-byte text ending in a byte >= 0x80) is decoded as a heap id')
+    res.analysed['raw-word comparisons'] = n_disc
     n_sites = sum(len(v) for v in shifts.values())
     res.floor('tag shift sites', n_sites, 3)
     roles = {r for v in tags.values() for _, _, r in v}
@@ -735,6 +773,51 @@ def run_intern(prog, tier, repo):
                               f'the text into an intern map on that path: the string is in neither map, so allocating the same '
                               f'text again yields a second, different handle (and two module references for one path)')
     res.floor('live slot overwrites', n2, 2)
+    # entering a text into the permanent intern map says "this slot is never reclaimed": on every path the slot itself must be
+    # made permanent too - pushed as a permanent slot, or overwritten with one (a string promoted out of the temporary map keeps
+    # its old, collectable slot otherwise, and the sweeper frees it under the permanent map's feet)
+    tmap = _temp_intern_map(prog, heap, slot)
+    pmaps = [m for m in maps if m != tmap]
+    perm = [i for i, v in enumerate(slot.variants) if len(v.fields) == 1 and v.fields[0].ty.k == 'ref']
+    n3 = 0
+    if tmap is not None and len(pmaps) == 1 and len(perm) == 1:
+        for b in [x for x in prog.bodies.values() if x.crate == 'samlang_heap' and '::tests' not in x.name]:
+            ins = []
+            for bj, bl in enumerate(b.blocks):
+                tt = bl.term
+                if tt[0] == 'call' and tt[3] and not bl.cleanup and (callee(tt)[1] or '').endswith('HashMap::<K, V, S, A>::insert'):
+                    rr, pp = operand_root(b, tt[3][0])
+                    fns = field_names(pp)
+                    if rr == 1 and fns and fns[-1] == pmaps[0]:
+                        ins.append((bj, tt))
+            if not ins:
+                continue
+            cfg = cfg_of(b)
+            makes = []
+            for bi, st in _slot_assignments(prog, b, slot):
+                rv = st[2]
+                if rv[0] == 'use' and rv[1][0] in ('c', 'm') and not rv[1][1].proj:
+                    sdv = single_def(b, rv[1][1].local)
+                    if sdv and sdv[1] != 'term':
+                        rv = sdv[2]
+                if rv[0] == 'agg' and rv[1][0] == 'adt' and rv[1][1] == slot.id and rv[1][2] == perm[0]:
+                    makes.append(bi)
+            for bi, t in call_sites(b, lambda nm: nm.endswith('Vec::<T, A>::push')):
+                vr, _vp = operand_root(b, t[3][1]) if len(t[3]) > 1 else (None, ())
+                sdv = single_def(b, vr) if vr is not None else None
+                if sdv and sdv[1] != 'term' and sdv[2][0] == 'agg' and sdv[2][1][0] == 'adt' and sdv[2][1][1] == slot.id \
+                        and sdv[2][1][2] == perm[0]:
+                    makes.append(bi)
+            for k, (bj, tt) in enumerate(ins, 1):
+                n3 += 1
+                key = f'permanent-entry:{b.name}#{k}'
+                if makes and (cfg.nodes_dominate(makes, bj) or cfg.nodes_postdominate(makes, bj)):
+                    res.ok(key, b.loc(tt[7]), 'the slot entered into the permanent intern map is made permanent on every path')
+                else:
+                    res.violation(key, b.loc(tt[7]), f'{b.name} enters a text into the permanent intern map `{pmaps[0]}` on a path that '
+                                  f'neither pushes a permanent slot nor overwrites the slot with one: the slot keeps its collectable '
+                                  f'state, the sweeper reclaims it, and the permanent handle then points at a reclaimed string')
+    res.floor('entries into the permanent intern map', n3, 1)
     return [res]
 
 
